@@ -49,6 +49,18 @@ func (e *Enc) instr(fr *Frame, b *ssa.BasicBlock, in ssa.Instruction, st *State)
 		}
 		e.store(st, ad, v.t())
 		e.markEscaped(v.t(), 0)
+		if al, isAlloc := x.Addr.(*ssa.Alloc); isAlloc && e.onceCellsOf(fr.fn)[al] == x && len(v.T) == 1 {
+			if e.onceVals == nil {
+				e.onceVals = map[*Term]*Term{}
+			}
+			e.onceVals[a.t()] = v.t() // assigned here and never again: every later read yields this value
+		}
+		if e.yieldParam != nil && len(v.T) == 1 && v.T[0] == e.yieldParam {
+			if e.yieldCells == nil {
+				e.yieldCells = map[*Term]bool{}
+			}
+			e.yieldCells[a.t()] = true // the variable the callback parameter lives in (captured by literals)
+		}
 	case *ssa.UnOp:
 		e.unop(fr, x, st)
 	case *ssa.BinOp:
@@ -294,6 +306,9 @@ func (e *Enc) unop(fr *Frame, x *ssa.UnOp, st *State) {
 			e.nilCheck(fr, st, v.t(), x.Pos(), x.X)
 		}
 		t := e.load(st, a)
+		if ov, ok := e.onceVals[v.t()]; ok && len(v.T) == 1 && ov.sort == t.sort {
+			t = ov
+		}
 		if t.sort != e.sortOf(x.Type()) {
 			panic(fmt.Sprintf("load sort mismatch in %s: %s vs %s at %s", fr.fn, t.sort, e.sortOf(x.Type()), e.prog.Fset.Position(x.Pos())))
 		}
